@@ -25,7 +25,7 @@ SPECS = {
                     "(vm_compute); C<>S is a failing input of the property, C<>M a broken correspondence",
     ),
     "C02": dict(
-        level="proof", props_deps=["Proofs/Unify.v"], model_deps=["Model/TermCheck.v"],
+        level="proof", props_deps=["Proofs/Unify.v", "Proofs/UnifySound.v"], model_deps=["Model/TermCheck.v"],
         trusted=COMMON_TRUSTED + ["hand-written Model/Unify.v (Resolve/unify/contains over abstract terms and a finite-map env), tied to engine/env.go by the correspondence run"],
         assumptions=["pairs subject to occurs check are only used with unify_with_occurs_check/2 (decided by the harness's own unifier)",
                      "the red-black tree of engine/env.go is abstracted to a finite map"],
@@ -58,7 +58,7 @@ SPECS = {
         explanation="histories of loads (Exec and consult/1) and assertz calls on one interpreter, every fault kind swept over the positions of a text; error kind, output and the clause lists of all predicates after every operation compared with the model and with the property read as a specification",
     ),
     "C16": dict(
-        level="proof", props_deps=["Proofs/Rel.v", "Proofs/Unify.v"], model_deps=["Model/RelCheck.v"],
+        level="proof", props_deps=["Proofs/Rel.v", "Proofs/Unify.v", "Proofs/UnifySound.v"], model_deps=["Model/RelCheck.v"],
         trusted=COMMON_TRUSTED + ["hand-written Model/Rel.v: the relations themselves (enumerations proved exact) and answers = candidates unifiable with the arguments, by the unification model of C02; it is a specification-level model, not a mirror of builtin.go, tied by the correspondence run",
                                   "UTF-8 decoding of atom text in the model (uchars); Coq string literals are byte strings"],
         assumptions=["modes: those the implementation admits (ISO): arg/3 with N an integer, between/3 with integer bounds, length/2 with a partial list only when the length is given",
